@@ -1734,6 +1734,43 @@ def _forget_names(ctx: Dict[str, object], names: List[str]) -> None:
             list_info[name]["length"] = None
 
 
+CALLED_NAME_RE = re.compile(r"\b([A-Za-z_]\w*)\s*\(")
+
+
+def _function_blocks(lines: List[str]) -> Dict[str, List[str]]:
+    """Body lines of every top-level ``def`` of the script, by function name."""
+
+    blocks: Dict[str, List[str]] = {}
+    i = 0
+    while i < len(lines):
+        m = None
+        if _indent_of(lines[i]) == 0:
+            m = RE_DEF.match(_strip_inline_comment(lines[i]).strip())
+        if m is None:
+            i += 1
+            continue
+        block, i = _collect_block(lines, i)
+        blocks.setdefault(m.group(1), []).extend(block)
+    return blocks
+
+
+def _callee_written_names(block: List[str], ctx: Dict[str, object]) -> List[str]:
+    """Names written by the script functions ``block`` may call, directly or not."""
+
+    blocks: Dict[str, List[str]] = ctx.get("_function_blocks", {})
+    names: List[str] = []
+    seen: Set[str] = set()
+    pending: List[str] = list(block)
+    while pending:
+        text = _strip_inline_comment(pending.pop())
+        for callee in CALLED_NAME_RE.findall(text):
+            if callee in blocks and callee not in seen:
+                seen.add(callee)
+                pending.extend(blocks[callee])
+                names.extend(_written_names(blocks[callee]))
+    return names
+
+
 def _parse_function(
     name: str,
     params_src: str,
@@ -1794,6 +1831,9 @@ def _parse_function(
     # The body runs at the calls, not here: only names the script binds once and
     # never mutates still have the value known now.
     _forget_names(child_ctx, ctx.get("_rebound_names", ()))
+    # Nor names written by a function the body calls: every call may change them.
+    child_ctx["_callee_written"] = _callee_written_names(block, ctx)
+    _forget_names(child_ctx, child_ctx["_callee_written"])
     child_ctx["var_types"] = dict(ctx.get("var_types", {}))
     child_ctx["var_declared"] = set(ctx.get("var_declared", set()))
     child_ctx["_base_declared"] = set(child_ctx["var_declared"])
@@ -2755,6 +2795,8 @@ def _parse_simple_lines(
         if assignment_nodes is not None:
             if scope != "function":
                 _forget_names(ctx, ctx.get("_function_written", ()))
+            else:
+                _forget_names(ctx, ctx.get("_callee_written", ()))
             body.extend(assignment_nodes)
             i += 1
             continue
@@ -4507,6 +4549,7 @@ def parse(src: str) -> Program:
     write_sites = _written_names(lines)
     ctx["_rebound_names"] = [n for n in write_sites if write_sites.count(n) > 1]
     ctx["_function_written"] = []
+    ctx["_function_blocks"] = _function_blocks(lines)
 
     i = 0
     seen_main_loop = False
